@@ -153,7 +153,7 @@ class Res(dict):
     __getattr__ = dict.__getitem__
 
 
-def run_session(proj, args=(), env=None, stdin=b"", tty=None, timeout=120, junit=True, base_args=BASE_ARGS):
+def run_session(proj, args=(), env=None, stdin=b"", tty=None, timeout=600, junit=True, base_args=BASE_ARGS):
     """one real pytest session in `proj`; returns Res(rc, out, err, outcomes, before, after, cmd, env_extra)"""
     if _DEADLINE is not None and _DEADLINE.expired():
         raise Skipped()
